@@ -17,6 +17,10 @@ normalised here like `Configuration.normalize`) and steps
   `d:S:<frame>` deliver the oldest in-flight frame to S's reader (the frame is
                 what the harness took off the real wire; it must be the model's)
   `i:S:<frame>` feed an arbitrary frame to S's reader (adversarial peer)
+  `dcw:S:id:<frame>:n` the next frame reaches S's reader *while* the program
+                calls CloseWrite(id): a Write blocked mid-payload may still send
+                what the frame entitles it to (n bytes observed), then returns;
+                only then is the close-write enqueued (no data behind it)
   `st:S`/`us:S` stall / release S's carrier writes    `mc:S` Multiplexer.Close
   `end`         release stalls, close A, then B; print both internal errors
 
@@ -178,6 +182,29 @@ def DState.settle (d : DState) : DState :=
   let d := d.progressAll
   (d.flush .a).flush .b
 
+/-- A writer that raced with `CloseWrite`: of the chunks it could still send
+it sent exactly `n` bytes (observed on the wire) before it noticed
+`closedWrite`; `none` if `n` is not a sum of whole chunks it was entitled to. -/
+def writeBudget : Nat → DState → Nat → Nat → Nat → Option DState
+  | 0, d, _, _, n => if n = 0 then some d else none
+  | fuel + 1, d, k, id, n =>
+    if n = 0 then some d else
+    match d.ops[k]? with
+    | some { side := w, kind := .write _ rest count, done := false, .. } =>
+      let (s', ms, rest') := (d.net.side w).writeChunk id rest
+      let sent := rest.length - rest'.length
+      if ms.isEmpty ∨ sent > n then none else
+      let d := (d.setSide w s').emit w ms
+      let d := { d with ops := d.ops.modify k fun o => { o with kind := .write id rest' (count + sent) } }
+      writeBudget fuel d k id (n - sent)
+    | _ => none
+
+def DState.findWrite (d : DState) (w : Who) (id : Nat) : Option Nat :=
+  (List.range d.ops.size).find? fun k =>
+    match d.ops[k]? with
+    | some o => !o.done && o.side == w && (match o.kind with | .write i _ _ => i == id | _ => false)
+    | none => false
+
 def parseWho : String → Option Who
   | "A" => some .a
   | "B" => some .b
@@ -330,6 +357,40 @@ def DState.step (d : DState) (tok : String) : Option (DState × String) :=
       let (s', ok) := (d.net.side w).setWriteDeadline id dl
       pure ((d.setSide w s').settle.render (if ok then "ok" else "writeclosed"))
     else none
+  | ["dcw", w, id, fr, n] => do
+    -- the next frame reaches `w`'s reader while the program calls CloseWrite(id):
+    -- an in-flight Write may still send what the frame entitles it to (n bytes
+    -- were observed), then it returns, and only then the close-write is enqueued
+    let w ← parseWho w
+    let id ← id.toNat?
+    let n ← n.toNat?
+    let f ← parseFrame fr
+    if !d.hasHandle w id then return (d, "nostream")
+    match d.net.inbox w with
+    | [] => return (d, "wire-mismatch")
+    | m :: rest =>
+      if m.toFrame ≠ f then return (d, s!"wire-mismatch:{showFrame m.toFrame}")
+      let d := { d with net := d.net.setInbox w rest }
+      if (d.net.side w).closedMux then return (d.settle.render "-")
+      match (d.net.side w).deliverFrame f with
+      | .error e => pure (({ d with net := d.net.fail w (some e) }).settle.render s!"rej:{showReject e}")
+      | .ok s' =>
+        let d := d.setSide w s'
+        let d ← match d.findWrite w id with
+          | some k => writeBudget (n + 1) d k id n
+          | none => if n = 0 then some d else none
+        -- a writer that got everything out returns nil, not ErrWriteClosed
+        let d := match d.findWrite w id with
+          | some k =>
+            match d.ops[k]? with
+            | some { kind := .write _ [] count, .. } => d.complete k s!"{count}/ok"
+            | _ => d
+          | none => d
+        let already := ((d.net.side w).streams id).any (·.closedWrite)
+        let d := if already then d else
+          let d := (d.setSide w ((d.net.side w).markClosedWrite id)).progressAll
+          d.setSide w ((d.net.side w).enqCW id)
+        pure (d.settle.render (okStar (d.net.side w)))
   | ["x", k] => do
     let k ← k.toNat?
     let d := { d with ops := d.ops.modify k fun o => { o with canceled := true } }
